@@ -295,6 +295,11 @@ theorem col_correct (ops : FloatOps) (hops : FloatOpsOk ops) (f : Field) (cell :
         · subst e
           simp [parseTextValue, isIntFieldType, isStringFieldType] at hpt; subst hpt
           simp [appendBinaryValue, binaryValueBytes, isLenEncFieldType, isRawFieldType] at habv
+          subst habv
+          have ht := takeLenEnc_append cell rest (by omega)
+          refine ⟨.dec u sc, ?_, ?_⟩
+          · simp [decodeValue, intWidth, ht, hdt]
+          · simp [Val.same]
     by_cases hdate : ty = TypeDate ∨ ty = TypeNewDate
     · simp only [h4, h5, hdec, hdate, if_false, if_true] at hden
       refine ⟨d, ?_, same_refl _⟩
